@@ -23,6 +23,9 @@ pub struct MemServer {
 	pub stop_handle: StopHandle,
 	pub handle: ServerHandle,
 	pub duplex_capacity: usize,
+	/// every connection's service is built from a clone of the builder on which `set_http_middleware` is called again
+	/// (as an accept loop that configures middleware per connection does)
+	pub per_conn_http_middleware: bool,
 }
 
 #[derive(Debug, Clone)]
@@ -74,12 +77,20 @@ impl MemServer {
 	pub fn new(cfg: ServerConfig, methods: impl Into<Methods>) -> Self {
 		let (stop_handle, handle) = stop_channel();
 		let builder = jsonrpsee_server::Server::builder().set_config(cfg).to_service_builder();
-		MemServer { builder, methods: methods.into(), stop_handle, handle, duplex_capacity: 1 << 20 }
+		MemServer { builder, methods: methods.into(), stop_handle, handle, duplex_capacity: 1 << 20, per_conn_http_middleware: false }
+	}
+
+	/// The same around a service builder assembled by the caller.
+	pub fn with_builder(builder: SvcBuilder, methods: impl Into<Methods>) -> Self {
+		let (stop_handle, handle) = stop_channel();
+		MemServer { builder, methods: methods.into(), stop_handle, handle, duplex_capacity: 1 << 20, per_conn_http_middleware: false }
 	}
 
 	/// A fresh per-connection tower service (takes the next connection id).
 	pub fn service(&self) -> jsonrpsee_server::TowerService<Identity, Identity> {
-		self.builder.clone().build(self.methods.clone(), self.stop_handle.clone())
+		let b = self.builder.clone();
+		let b = if self.per_conn_http_middleware { b.set_http_middleware(tower::ServiceBuilder::new()) } else { b };
+		b.build(self.methods.clone(), self.stop_handle.clone())
 	}
 
 	/// Open a new connection: returns the client half; the server half is served by hyper exactly as
